@@ -15,9 +15,43 @@ MIX = {"fillna": 1, "dropna": 1, "vcat": 2, "newvec": 8, "newtab_dict": 2, "newt
        "sett": 3, "setattr": 4, "fp": 1, "read": 1, "drop": 5, "cycle_drop": 3, "gc": 2, "math": 1, "sort": 1}
 
 
+def planted():
+    """deterministic histories around the places where alias tracking is known to be delicate (they run in every
+    tier, before the random histories): a former sharer whose partner died, in either registration order; a
+    promoting write followed by fresh vectors of the same length (the freed intermediate storage's identity comes
+    back); whole-range slices, empty concatenations, no-op fills of a live vector; a vector used as its own key or
+    value; delayed collection"""
+    W = lambda slot, i, x: ["setv", slot, ["int", i], ["s", x]]           # noqa: E731
+    ps = []
+    for t in (0, 1):                                    # two caller tuples of the harness (lengths 3 and 2)
+        for first_dies in (True, False):
+            # a, b over one tuple; one of them dies; the survivor writes (moves away); c over the same tuple; c writes
+            ps.append([["newvec", [], None, t], ["newvec", [], "b", t], ["drop", 0 if first_dies else 1], W(0, 0, 7),
+                       ["newvec", [], "c", t], W(1, 0, 5), W(0, 1, 2)])
+            ps.append([["newvec", [], None, t], ["newvec", [], "b", t], ["cycle_drop", 0 if first_dies else 1],
+                       W(0, 0, 7), ["gc"], W(0, 0, 7), ["newvec", [], "c", t], W(1, 0, 5)])
+        # both alive: refused; partner writes... still refused for the partner too; drop one: writable
+        ps.append([["newvec", [], "a", t], ["newvec", [], "b", t], W(0, 0, 1), W(1, 0, 1), ["drop", 1], W(0, 0, 1)])
+    for n in (1, 2, 3, 4):
+        vals = list(range(n))
+        # promotion (a float into an int vector), then fresh same-length vectors, each written at once
+        prog = [["newvec", vals, "p", None], W(0, 0, 2.0)]
+        for k in range(4):
+            prog += [["newvec", [k + 1] * n, None, None], W(k + 1, 0, 9)]
+        ps.append(prog)
+        ps.append([["newvec", vals, "p", None], ["setv", 0, ["slice", None, None, None], ["l", [4.0] * n]],
+                   ["newvec", [7] * n, None, None], W(1, 0, 1), ["newvec", [8] * n, None, None], W(2, 0, 1), W(0, 0, 3)])
+        # derivations of a live vector that hold the same values: each is writable, and so is the source
+        for der in (["slice", 0, None, None, None], ["slice", 0, 0, 99, 1], ["vcat", 0, []], ["fillna", 0], ["dropna", 0],
+                    ["copy", 0], ["sort", 0], ["mask", 0, [True]]):
+            ps.append([["newvec", [v + 1 for v in vals], "s", None], der, W(1, 0, 9), W(0, 0, 8), der, W(0, 0, 7), W(2, 0, 6)])
+    return [{"prog": p} for p in ps]
+
+
 def streams(rng, tier):
     n = 300 if tier == "quick" else 4000
-    return [("histories", [{"prog": H.gen_program(rng, rng.randint(10, 45), MIX)} for _ in range(n)])]
+    return [("planted", planted()),
+            ("histories", [{"prog": H.gen_program(rng, rng.randint(10, 45), MIX)} for _ in range(n)])]
 
 
 def observe(case):
